@@ -5,6 +5,7 @@ CONSTANTS
   Preds <- MCPreds
   Ops <- MCOps
   Bulks <- MCBulks
+  NRoutes <- MCNRoutes
   MaxList = @MAXLIST@
   MinList = @MINLIST@
   MaxOps = @MAXOPS@
